@@ -21,6 +21,9 @@ REDECLARE = [
     "DROP TABLE {s}.{n};\nCREATE TABLE {s}.{n} (a int, PRIMARY KEY (a));\nCREATE INDEX ix_rd ON {s}.{n} (a);",
     "CREATE TABLE {s}.{n} (a int);\nCREATE TABLE {n} (b int);\nCREATE TABLE {s}.{n} (c int);",
     "CREATE TABLE {n} (a int);\nDROP TABLE {n};\nCREATE TABLE {n} (a int, b int UNIQUE);\nALTER TABLE {n} ADD PRIMARY KEY (a);",
+    # identifiers outside ASCII (reported as escape sequences, known finding K3 - but consistently so in columns and key lists)
+    "CREATE TABLE {n} (stra\u00dfe int, \"\u540d\u524d\" varchar(5), c int, PRIMARY KEY (stra\u00dfe, \"\u540d\u524d\"));",
+    "CREATE TABLE {s}.{n} (`pr\u00e9nom` text NOT NULL, id int, CONSTRAINT pk_{n} PRIMARY KEY (id, `pr\u00e9nom`));\nCREATE INDEX ix_rd ON {s}.{n} (`pr\u00e9nom`);",
 ]
 
 
